@@ -632,7 +632,7 @@ CHECKS = {
         stages=[PACKET],
         technique="TLA+ state machine of packet.Writer/Reader (Packet.tla): TLC exhaustive over all short op sequences + "
                   "TLC trace validation of recorded real op sequences",
-        level_text="TLC checks CountAgrees/BufIsLog/Inverse/sticky-error/ShrinksOnly on every sequence of <=3 writer ops "
+        level_text="(Also run here: Compose_WirePacket.tla - for all 58 PDU types x 3 sample assignments the sequence of writer primitives of an encoder leaves Wire's image and the mirrored reads return the fields; list elements written as C-strings is the negative configuration.)  TLC checks CountAgrees/BufIsLog/Inverse/sticky-error/ShrinksOnly on every sequence of <=3 writer ops "
                    "followed by mirrored or arbitrary reads (exhaustive, small alphabet); every public call of thousands of "
                    "random real op sequences (failures injected at every position) is then validated step by step against "
                    "the same state machine, so a primitive that miscounts, writes after an error, returns data after a "
